@@ -7,5 +7,7 @@ import (
 )
 
 func TestSim(t *testing.T) {
+	// the scratch key directories of this process (real file system)
+	defer CleanupKeys()
 	harness.Main(t, map[string]harness.WorldFunc{"e2e": Run})
 }
